@@ -32,6 +32,8 @@ pub struct Ctx {
     /// scale factor on case counts (VERIF_SCALE, default 1.0) for smoke runs
     pub scale: f64,
     pub verif_dir: String,
+    /// where evidence/ and replays/ are written (VERIF_OUT, default = verif_dir)
+    pub out_dir: String,
 }
 
 impl Ctx {
@@ -261,7 +263,7 @@ pub fn finish(ctx: &Ctx, mut rep: Report, t0: Instant) -> i32 {
     let mut exit = 0;
     if !new_violations.is_empty() {
         exit = 1;
-        let dir = format!("{}/replays/{}", ctx.verif_dir, id);
+        let dir = format!("{}/replays/{}", ctx.out_dir, id);
         let _ = std::fs::create_dir_all(&dir);
         let mut printed: HashSet<String> = HashSet::new();
         for v in &new_violations {
@@ -325,7 +327,7 @@ pub fn finish(ctx: &Ctx, mut rep: Report, t0: Instant) -> i32 {
         "threads": ctx.threads,
     });
     if ctx.only_case.is_none() {
-        let dir = format!("{}/evidence", ctx.verif_dir);
+        let dir = format!("{}/evidence", ctx.out_dir);
         let _ = std::fs::create_dir_all(&dir);
         let path = format!("{dir}/{id}.json");
         if let Err(e) = std::fs::write(&path, serde_json::to_string_pretty(&ev).unwrap()) {
